@@ -87,6 +87,7 @@ func Pack(cases []*Case) (*fl.Program, []string) {
 	p := &fl.Program{}
 	main := &fl.Func{Name: "main"}
 	markers := make([]string, len(cases))
+	seenF, seenS := map[*fl.Func]bool{}, map[*fl.TStruct]bool{}
 	for i, k := range cases {
 		q := *k.P
 		q.Funcs = nil
@@ -99,6 +100,9 @@ func Pack(cases []*Case) (*fl.Program, []string) {
 				q.Funcs = append(q.Funcs, f)
 			}
 		}
+		// declarations shared between cases (same pointer) are emitted once
+		q.Funcs = dedupF(seenF, q.Funcs)
+		q.Structs = dedupS(seenS, q.Structs)
 		p.Merge(&q)
 		markers[i] = fmt.Sprintf("#case %d", i)
 		main.Body = append(main.Body, fl.P(fl.S(markers[i])), &fl.ExprStmt{X: fl.C(fmt.Sprintf("case_%d", i))})
@@ -106,6 +110,28 @@ func Pack(cases []*Case) (*fl.Program, []string) {
 	main.Body = append(main.Body, fl.P(fl.S("#end")))
 	p.Funcs = append(p.Funcs, main)
 	return p, markers
+}
+
+func dedupF(seen map[*fl.Func]bool, l []*fl.Func) []*fl.Func {
+	var out []*fl.Func
+	for _, f := range l {
+		if !seen[f] {
+			seen[f] = true
+			out = append(out, f)
+		}
+	}
+	return out
+}
+
+func dedupS(seen map[*fl.TStruct]bool, l []*fl.TStruct) []*fl.TStruct {
+	var out []*fl.TStruct
+	for _, f := range l {
+		if !seen[f] {
+			seen[f] = true
+			out = append(out, f)
+		}
+	}
+	return out
 }
 
 // Runner observes cases on a target.
